@@ -2,12 +2,13 @@
 Shares its machinery (tracer, histories, model replay) with harness/props/c04.py.
 
 C02 step 3 (Props/C02rec.v): on top of the shared driver this check evaluates, inside Coq,
-  * mon2_ok (Model/TreeStatePre2.v) on EVERY recorded primitive trace: the boolean precondition
-    primA_pre2_b of C02fin_prim_preserves (C04's preconditions with the dfs facts replaced by complete_b,
-    total_flops / total_write / max_size covered, plus "legs supplied for the root carry the declared
-    output order") holds for every primitive at the state the model reaches;
-  * sorted_keys_b && complete_b on every state in which a contraction just ran (the side conditions of
-    C02fin_history_value)."""
+  * mon3_ok (Model/TreeStatePre3.v) on EVERY recorded primitive trace: the boolean precondition
+    primA_pre3_b of C02str_prim_preserves (the dfs facts replaced by complete_b, every primitive covered,
+    structural state facts derived from the invariant SI; operands of contract_nodes_pair sorted and
+    leaves-or-keys; "legs supplied for the root carry the declared output order") holds for every
+    primitive at the state the model reaches;
+  * sorted_keys_b && complete_b && struct_b on every state in which a contraction just ran (complete_b is
+    the remaining end-state premise of C02str_history_exec; struct_b is the boolean form of SI)."""
 import os
 import sys
 import time
@@ -47,19 +48,19 @@ def monitor_A(ctx, coq_cases, captured):
             continue
         body = lhs[len(pre):]
         k = body.rfind(")")          # "... [(tid, PRE)]) post_tid"
-        mon_cases.append((label + ".pre2", "mon2_ok " + body[:k], "true"))
+        mon_cases.append((label + ".pre3", "mon3_ok " + body[:k], "true"))
     if mon_cases:
         t0 = time.time()
-        failing = coq_cases("c02_pre2", ["TreeState", "TreeStatePre", "TreeStateRec", "TreeStatePre2"], mon_cases,
+        failing = coq_cases("c02_pre3", ["TreeState", "TreeStatePre", "TreeStateRec", "TreeStatePre2", "TreeStatePre3"], mon_cases,
                             chunk=max(20, len(mon_cases) // 48 + 1), timeout=900)
-        ctx.log("precondition monitor (primA_pre2_b, all primitives covered) on %d traces in %.1fs, %d failing" % (
+        ctx.log("precondition monitor (primA_pre3_b, all primitives covered) on %d traces in %.1fs, %d failing" % (
             len(mon_cases), time.time() - t0, len(failing)))
         ctx.count("preA_traces_checked", len(mon_cases))
         for idx, label, val in failing[:5]:
-            ctx.fail("a recorded primitive does not meet the precondition of C02fin_prim_preserves (primA_pre2_b)",
+            ctx.fail("a recorded primitive does not meet the precondition of C02fin_prim_preserves (primA_pre3_b)",
                      {"label": label, "case": mon_cases[idx][1][:4000] if idx < len(mon_cases) else None,
                       "monitor": val,
-                      "correspondence": "mon2_ok (Model/TreeStatePre2.v) on the recorded primitive trace"},
+                      "correspondence": "mon3_ok (Model/TreeStatePre3.v) on the recorded primitive trace"},
                      found_input=False)
     # --- side condition of C02rec_history_value on the states in which a contraction ran --------
     sk_cases = []
@@ -69,20 +70,21 @@ def monitor_A(ctx, coq_cases, captured):
         args = split_top(lhs[len("contractible_b "):])
         if len(args) != 3:
             continue
-        sk_cases.append((label + ".sorted", "sorted_keys_b %s && complete_b %s %s" % (args[1], args[0], args[1]), "true"))
+        sk_cases.append((label + ".sorted", "sorted_keys_b %s && complete_b %s %s && struct_b %s" % (args[1], args[0], args[1], args[1]), "true"))
     if sk_cases:
         t0 = time.time()
-        failing = coq_cases("c02_sorted", ["TreeState", "TreeStatePre", "TreeStateRec"], sk_cases,
+        failing = coq_cases("c02_sorted", ["TreeState", "TreeStatePre", "TreeStateRec", "TreeStatePre2", "TreeStatePre3"], sk_cases,
                             chunk=max(20, len(sk_cases) // 48 + 1), timeout=600)
-        ctx.log("sorted_keys_b && complete_b on %d ready states in %.1fs, %d failing" % (len(sk_cases), time.time() - t0, len(failing)))
+        ctx.log("sorted_keys_b && complete_b && struct_b on %d ready states in %.1fs, %d failing" % (len(sk_cases), time.time() - t0, len(failing)))
         for idx, label, val in failing[:5]:
             ctx.fail("a state in which a contraction ran has a children dict that is not keyed by sorted nodes "
                      "or is not complete (side conditions sorted_keys_b / complete_b of C02fin_history_value)",
                      {"label": label, "value": val}, found_input=False)
     ctx.assumptions.append(
-        "C02fin_history_value: boolean premises about the end state that are evaluated per run, not derived: "
-        "no exception, complete_b, sorted_keys_b; the per-primitive preconditions primA_pre2_b (every primitive "
-        "covered, the tree mentioned only through complete_b) are evaluated on every recorded trace (mon2_ok)")
+        "C02str_history_exec: boolean premises about the end state that are evaluated per run, not derived: "
+        "no exception, complete_b; the per-primitive preconditions primA_pre3_b (every primitive covered) are "
+        "evaluated on every recorded trace (mon3_ok); struct_b (SI) and sorted_keys_b are derived for states "
+        "reached from a fresh tree and are additionally evaluated on the observed states")
 
 
 def run(ctx):
